@@ -23,6 +23,9 @@ fn workers_from_env() -> usize {
 }
 
 pub fn silence_panics() {
+    if std::env::var("VERIF_SHOW_PANICS").is_ok() {
+        return;
+    }
     std::panic::set_hook(Box::new(|_| {}));
 }
 
@@ -77,7 +80,7 @@ pub fn worker(engine: &dyn Engine, thorough: bool, seed: u64, w: u64, n: u64, ou
         }
         agg.ops += st.ops;
         agg.events += st.callback_events;
-        agg.sim_time_ns += st.sim_time_ns;
+        agg.sim_time_ns = agg.sim_time_ns.saturating_add(st.sim_time_ns);
         agg.distinct.insert(st.distinct_key);
         if !st.fired.is_empty() || st.callback_events > 0 {
             agg.distinct_nontrivial.insert(st.distinct_key);
@@ -456,7 +459,7 @@ pub fn run_check(engine: &dyn Engine, thorough: bool) -> i32 {
                 cases += j["cases"].as_u64().unwrap_or(0);
                 ops += j["ops"].as_u64().unwrap_or(0);
                 events += j["events"].as_u64().unwrap_or(0);
-                sim_ns += j["sim_time_ns"].as_u64().unwrap_or(0);
+                sim_ns = sim_ns.saturating_add(j["sim_time_ns"].as_u64().unwrap_or(0));
                 stopped_early |= j["stopped_early"].as_bool().unwrap_or(false);
                 if let Some(m) = j["silent"].as_object() {
                     for (k, v) in m {
@@ -581,7 +584,7 @@ pub fn run_check(engine: &dyn Engine, thorough: bool) -> i32 {
             "process_deaths": deaths,
             "known_findings_hit": known_hits,
             "replays": replay_paths,
-            "components_real": ["rscel tokenizer, compiler (incl. constant folder), VM, macros, built-ins (crate built from /repo's working tree, dev profile, default features)", "chrono", "std HashMap/RandomState"],
+            "components_real": ["rscel tokenizer, compiler (incl. constant folder), VM, macros, built-ins (crate built from /repo's working tree with overflow checks and debug assertions on; C12 unoptimised as the test suite builds it, the others at opt-level 2; default features)", "chrono", "std HashMap/RandomState"],
             "components_stub": ["wall clock (clock_gettime seam)", "hash-key source (getrandom seam)", "thread scheduler (one client thread runnable at a time)", "user callbacks (scripted)", "bound data"],
             "components_not_run": ["python and wasm bindings", "protobuf message values", "extensions/to_sql"],
             "seam_inventory": seam_inventory(),
@@ -647,6 +650,48 @@ fn expected_probes(prop: &str) -> &'static [&'static str] {
             "coalesce_skips_possibly_failing_arg",
             "coalesce_nothing_qualifies",
             "bound_via_json",
+        ],
+        "C09" => &[
+            "bare_clock_program_executed",
+            "must_read_program_executed",
+            "exec_at_other_instant_than_compile",
+            "clock_moved_backwards",
+            "clock_moved_forwards",
+            "clock_frozen",
+            "ctx_cloned",
+            "exec_on_migrated_context",
+            "twin_on_fresh_thread",
+        ],
+        "C11" => &[
+            "twin_on_fresh_thread",
+            "twin_without_unreachable_programs",
+            "exec_on_migrated_context",
+            "exec_repeated",
+            "ctx_cloned",
+            "bindings_cloned",
+            "program_replaced",
+            "param_rebound",
+            "bound_via_json",
+            "function_bound",
+            "clock_moved_backwards",
+            "list_result_of_macro_compared_with_twin",
+        ],
+        "C12" => &[
+            "expect_chain:macro_body:le16",
+            "expect_chain:macro_body:gt16",
+            "expect_cycle:macro_body:1",
+            "expect_cycle:mixed:3",
+            "expect_graph:cyclic",
+            "expect_graph:acyclic",
+            "expect_loop:map",
+            "expect_resolve-type-first:vp",
+            "expect_resolve-variable-before-program",
+            "expect_call-function-before-type",
+            "expect_call-function-before-macro",
+            "expect_map-field-before-method",
+            "expect_replace-program-referenced",
+            "expect_rebind-variable",
+            "expect_json-binding-equals-direct",
         ],
         _ => &[],
     }
